@@ -16,7 +16,14 @@ def parse(ctx, text):
         return None, type(e).__name__
 
 
+def failing_prelude(ctx):
+    """an arbitrary preceding workload: bodies that the parser must refuse (nothing of them may leak into the next parse)"""
+    for bad in ("<OFX><A>1</A>", "<OFX><A></B></OFX>", "<OFX></OFX>x", "</Z>"):
+        parse(ctx, bad)
+
+
 def h_render(ctx, shape, taglen, datalen, maxgap, cdata):
+    failing_prelude(ctx)
     spec = sym_tree(ctx, shape, taglen, datalen)
     text = render(ctx, spec, maxgap, cdata)
     ctx.observe("text", text)
